@@ -48,10 +48,10 @@ Proof.
   unfold kind_of. intro H.
   destruct (kind_eqb (t_kind (su_kw u)) KFunctionBlock) eqn:E1.
   - destruct (kind_eqb (t_kind (su_en u)) KEndFunctionBlock) eqn:E2; [|contradiction H; reflexivity].
-    apply kind_eqb_eq in E1. apply kind_eqb_eq in E2. split; rewrite class_by_kind; rewrite ?E1, ?E2; try reflexivity; discriminate.
+    apply kind_eqb_eq in E1. apply kind_eqb_eq in E2. split; rewrite class_by_kind; rewrite ?E1, ?E2; reflexivity.
   - destruct (kind_eqb (t_kind (su_kw u)) KProgram) eqn:E3; [|contradiction H; reflexivity].
     destruct (kind_eqb (t_kind (su_en u)) KEndProgram) eqn:E2; [|contradiction H; reflexivity].
-    apply kind_eqb_eq in E3. apply kind_eqb_eq in E2. split; rewrite class_by_kind; rewrite ?E3, ?E2; try reflexivity; discriminate.
+    apply kind_eqb_eq in E3. apply kind_eqb_eq in E2. split; rewrite class_by_kind; rewrite ?E3, ?E2; reflexivity.
 Qed.
 
 (* the closing keyword starts no statement and no declaration block *)
@@ -97,7 +97,7 @@ Proof.
                 (bd = None /\ body token tok_class t_text tok_num op_level F (st_skip tail) = Ok ([], en :: rest))).
   { unfold tail, st_skip. destruct bd as [l|]; cbn [flat_body].
     - left. destruct Hbody as (Hl & Habs).
-      rewrite (skip_app_triv token tok_class w1 _ H1), (flat_l_skip token tok_class op_level l _ Hl).
+      rewrite (skip_app_triv token tok_class w1 _ H1), (flat_l_skip token tok_class t_text tok_num op_level l _ Hl).
       unfold body. rewrite (plist_real l (w2 ++ en :: rest)); [reflexivity | exact Hl | eapply closer_at; [exact H2 | exact Cen | reflexivity] | | lia].
       intro Hb. rewrite (Habs Hb). cbn [app]. apply (skip_solid token tok_class en rest Sen).
     - right. split; [reflexivity|]. subst w1. cbn [app]. rewrite (skip_app_triv token tok_class w2 _ H2), (skip_solid token tok_class en _ Sen).
@@ -143,7 +143,7 @@ Proof.
   unfold flat_u.
   assert (Sb : rscoped (flat_body (su_body u))).
   { destruct (su_body u) as [l|]; cbn [flat_body]; [|apply scoped_nil]. destruct Hbody as (Hl & _).
-    exact (proj1 (proj2 (wf_scoped_s token tok_class op_level)) l true Hl). }
+    exact (proj1 (proj2 (wf_scoped_s token tok_class t_text tok_num op_level)) l true Hl). }
   apply scoped_cons; [rewrite Ckw; reflexivity|]. apply scoped_app; [apply scoped_triv; exact H0|].
   apply scoped_cons; [rewrite Cnm; reflexivity|]. apply scoped_app; [apply scoped_wbs; exact Hbl|].
   apply scoped_app; [apply scoped_triv; exact H1|]. apply scoped_app; [exact Sb|]. apply scoped_app; [apply scoped_triv; exact H2|].
@@ -268,9 +268,9 @@ Definition erase_f (u : sfunc) : func_ :=
 Definition size_f (u : sfunc) : nat := size_wbs token (sf_blocks u) + 1 + rsize_l (sf_body u).
 
 Lemma class_function t : t_kind t = KFunction -> tok_class t = CKw KwEndPou.
-Proof. intro H. rewrite class_by_kind; rewrite H; [reflexivity | discriminate]. Qed.
+Proof. intro H. rewrite class_by_kind; rewrite H; reflexivity. Qed.
 Lemma class_endfunction t : t_kind t = KEndFunction -> tok_class t = CKw KwEndPou.
-Proof. intro H. rewrite class_by_kind; rewrite H; [reflexivity | discriminate]. Qed.
+Proof. intro H. rewrite class_by_kind; rewrite H; reflexivity. Qed.
 
 Theorem parse_function_spelled u rest F : wf_f u -> size_f u + 1 <= F ->
   parse_function F (flat_f u ++ rest) = FOk (erase_f u) rest.
@@ -298,7 +298,7 @@ Proof.
   rewrite Ety.
   assert (Hnb : no_block_next token tok_class tail) by (unfold tail; apply stmt_list_no_block; assumption).
   assert (Hbd : plist token tok_class t_text tok_num op_level F (st_skip tail) = Ok (rerase_l bd, w4 ++ en :: rest)).
-  { unfold tail, st_skip. rewrite (skip_app_triv token tok_class w3 _ H3), (flat_l_skip token tok_class op_level bd _ Hl).
+  { unfold tail, st_skip. rewrite (skip_app_triv token tok_class w3 _ H3), (flat_l_skip token tok_class t_text tok_num op_level bd _ Hl).
     rewrite (plist_real bd (w4 ++ en :: rest)); [reflexivity | exact Hl | eapply closer_at; [exact H4 | exact Cen | reflexivity] | | lia].
     intro Hb. rewrite (Habs Hb). cbn [app]. apply (skip_solid token tok_class en rest Sen). }
   assert (Hend : match st_skip (w4 ++ en :: rest) with
@@ -340,15 +340,15 @@ Proof. intros Hw Hr. destruct w as [|t w]; [exact Hr|]. cbn [app]. unfold hfh. r
 Lemma flat_l_hfh (l : rsl) r : rwf_l l -> rhfh (rflat_l l ++ r).
 Proof.
   intros Hl.
-  assert (G : forall g r0, wf_g token tok_class op_level true g -> rhfh (flat_g token g ++ r0)).
+  assert (G : forall g r0, wf_g token tok_class t_text tok_num op_level true g -> rhfh (flat_g token g ++ r0)).
   { intros [w1 semi w2|s m w0 semi] r0; cbn [wf_g flat_g].
     - intros (Hw1 & _ & Hsemi & _). rewrite (Hw1 eq_refl). cbn [app]. unfold hfh. rewrite Hsemi. discriminate.
     - intros (_ & Hs & _). rewrite <- !app_assoc.
       destruct s; cbn [wf_s flat_s] in Hs; (try destruct Hs as (Hs & _)); cbn [flat_s app]; unfold hfh; rewrite Hs; discriminate. }
   destruct l as [g|g l].
-  - change (rflat_l (LOne token g)) with (flat_g token g). change (wf_g token tok_class op_level true g) in Hl. apply G. exact Hl.
+  - change (rflat_l (LOne token g)) with (flat_g token g). change (wf_g token tok_class t_text tok_num op_level true g) in Hl. apply G. exact Hl.
   - change (rflat_l (LCons token g l)) with (flat_g token g ++ flat_l token l).
-    change (wf_g token tok_class op_level true g /\ wf_l token tok_class op_level (gempty token g) l) in Hl.
+    change (wf_g token tok_class t_text tok_num op_level true g /\ wf_l token tok_class t_text tok_num op_level (gempty token g) l) in Hl.
     destruct Hl as (Hg & _). rewrite <- app_assoc. apply G. exact Hg.
 Qed.
 
@@ -373,7 +373,7 @@ Proof.
   assert (Srest : rscoped (rflat_wbs (sf_blocks u) ++ sf_w3 u ++ rflat_l (sf_body u) ++ sf_w4 u ++ [sf_en u])).
   { apply scoped_app; [apply scoped_wbs; apply fwbs_wbs; exact Hbl|].
     apply scoped_app; [apply scoped_triv; exact H3|].
-    apply scoped_app; [exact (proj1 (proj2 (wf_scoped_s token tok_class op_level)) (sf_body u) true Hl)|].
+    apply scoped_app; [exact (proj1 (proj2 (wf_scoped_s token tok_class t_text tok_num op_level)) (sf_body u) true Hl)|].
     apply scoped_app; [apply scoped_triv; exact H4|]. apply scoped_tok. rewrite Cen. reflexivity. }
   apply (scoped2_then token tok_class); [apply scoped2_tyref; exact Hty | exact Srest | |].
   - destruct (rflat_wbs (sf_blocks u)); [destruct (sf_w3 u); [destruct (rflat_l (sf_body u)); [destruct (sf_w4 u)|]|]|]; discriminate.
